@@ -410,7 +410,7 @@ class CodeGenEnvironment(Environment):
         )
         if additional_globals is not None:
             for global_name, global_value in additional_globals.items():
-                if global_name in self.RESERVED_GLOBAL_NAMESPACES or global_name in self.RESERVED_GLOBAL_NAMES:
+                if global_name in self.RESERVED_GLOBAL_NAMESPACES | self.RESERVED_GLOBAL_NAMES | set(self.globals):
                     raise RuntimeError(f'Additional global "{global_name}" uses a reserved global name')
                 self.globals[global_name] = global_value
 
